@@ -97,6 +97,11 @@ fn op_list(thorough: bool) -> Vec<SendOp> {
     let mut payloads: Vec<OwnedTerm> = universe::leaves_small();
     payloads.extend(universe::composites_l2().into_iter().take(if thorough { 16 } else { 8 }));
     payloads.push(OwnedTerm::Binary(vec![7u8; 2048]));
+    // larger than 64 KiB (more than one 16-bit length, more than one write) and many distinct atoms
+    payloads.push(OwnedTerm::Binary((0..65_537u32).map(|i| (i % 251) as u8).collect()));
+    payloads.push(OwnedTerm::Binary((0..200_000u32).map(|i| (i % 241) as u8).collect()));
+    payloads.push(OwnedTerm::Tuple((0..254).map(|i| OwnedTerm::Atom(Atom::new(format!("atom_{}", i)))).collect()));
+    payloads.push(OwnedTerm::List((0..300).map(|i| OwnedTerm::Atom(Atom::new(format!("a{}", i)))).collect()));
     if thorough { payloads.extend(universe::leaves_full(false).into_iter().filter(|t| erltf::encode(t).map(|b| b.len() < 4096).unwrap_or(false))); }
     let tos = [pid_remote(1), pid_remote(u32::MAX), pid_local()];
     let r3 = ExternalReference::new(Atom::new("me@127.0.0.1"), 77, vec![1, 2, 3]);
@@ -118,6 +123,23 @@ fn op_list(thorough: bool) -> Vec<SendOp> {
 
 fn read_frame(body: &[u8], dist_hdr: bool, cache: &mut RxCache) -> Result<DistMsg, String> {
     if dist_hdr { read_dist_header_msg(body, cache).map_err(|e| format!("{:?}", e)) } else { read_pass_through(body).map_err(|e| format!("{:?}", e)) }
+}
+
+fn distinct_atoms(m: &DistMsg) -> usize {
+    fn walk(v: &RefVal, out: &mut std::collections::BTreeSet<String>) {
+        match v {
+            RefVal::Atom(a) => { out.insert(a.clone()); }
+            RefVal::Tuple(e) => e.iter().for_each(|x| walk(x, out)),
+            RefVal::List(e, t) => { e.iter().for_each(|x| walk(x, out)); walk(t, out); }
+            RefVal::Map(m) => m.iter().for_each(|(k, x)| { walk(k, out); walk(x, out); }),
+            RefVal::Pid { node, .. } | RefVal::Port { node, .. } | RefVal::Ref { node, .. } => { out.insert(node.clone()); }
+            _ => {}
+        }
+    }
+    let mut s = Default::default();
+    walk(&m.control, &mut s);
+    if let Some(p) = &m.payload { walk(p, &mut s); }
+    s.len()
 }
 
 fn same_msg(a: &DistMsg, b: &DistMsg) -> bool {
@@ -146,9 +168,11 @@ fn inputs_exec(dist_hdr: bool, thorough: bool, ctx: &WorkerCtx) -> ExecResult {
             let (frames, rest) = cw.peer.dist_frames();
             let new: Vec<&Vec<u8>> = frames.iter().skip(seen_frames).collect();
             let detail = |what: String| json!({"operation": op.short(), "mode": if dist_hdr { "distribution header" } else { "pass-through" }, "what": what, "new_frames": new.iter().map(|f| vcore::report::hex(f)).collect::<Vec<_>>(), "partial_bytes": rest.len()});
+            // a distribution header carries at most 255 atoms: such a message may be refused (without writing), or sent well-formed
+            let may_refuse = dist_hdr && distinct_atoms(&op.expected()) > 255;
             match r {
                 Err(e) => {
-                    res.violations.push(("send operation failed on a connected connection".into(), detail(e)));
+                    if !may_refuse { res.violations.push(("send operation failed on a connected connection".into(), detail(e))); }
                     if !new.is_empty() || !rest.is_empty() { res.violations.push(("failed operation wrote bytes".into(), detail("bytes on the wire".into()))); }
                 }
                 Ok(()) => {
